@@ -104,6 +104,18 @@ def step(versions, shapes, P, combos, hexshapes=False, ota_modes=("fixed",), onl
             line = C.structured_line(w, ints, payload)
             w.info = {"version": version, "line": line}
             verdict = C.classify(w, version, line)
+            if verdict == "accepted" and not hexshapes:
+                # "not valid for the configured protocol version" is the serial API's notion,
+                # not whatever the validator currently lets through (version payloads of node
+                # presentations are C03's grid and are not re-decided here)
+                from verifspec import serial_api as S
+                node, child, cmd, ack, sub = ints
+                is_version_cell = w.and_(w.eq(cmd, 0), w.or_(w.eq(sub, 17), w.eq(sub, 18)))
+                if not w.is_true(is_version_cell):
+                    spec = w.is_true(w.call(S.accepts, version, node, child, cmd, ack, sub,
+                                            payload, None))
+                    w.check(spec, "a line that is not valid for the configured protocol version "
+                                  f"was processed[{C.kind_tag(w, version, ints)}]")
             if verdict == "accepted":
                 flavour, transport = w.pick(combos, "flavour/transport")
                 shape = w.pick(shapes, "shape")
